@@ -6144,12 +6144,14 @@ class PyCdlib:
         else:
             if rec.parent is None:
                 return '/'
-            if rec.file_ident is not None:
-                encoding = rec.file_ident.encoding
-            else:
-                encoding = 'utf-8'
             udf_rec = rec  # type: Optional[udfmod.UDFFileEntry]
             while udf_rec is not None:
+                # Each UDF File Identifier has its own encoding, so every
+                # component of the path has to be decoded on its own.
+                if udf_rec.file_ident is not None:
+                    encoding = udf_rec.file_ident.encoding
+                else:
+                    encoding = 'utf-8'
                 ident = udf_rec.file_identifier()
                 if ident == b'/':
                     name = b''
